@@ -515,7 +515,24 @@ func (e *Env) trCall(n *ast.CallExpr) TVal {
 		tg, _ := strconv.Unquote(lit.Value)
 		cr, ok := e.x.callResults[tg]
 		if !ok {
-			return e.fail("result(%q): no such call executed before this point", tg)
+			// the call exists in the function but was not executed on the way here (or the code was
+			// changed so that it no longer precedes this point): its result is an arbitrary value —
+			// the clause then holds only if it holds whatever that call would return
+			sig := e.x.findCallSig(tg)
+			if sig == nil {
+				return e.fail("result(%q): the function under contract has no such call", tg)
+			}
+			rs := sig.Results()
+			var tup []sval
+			for k := 0; k < rs.Len(); k++ {
+				tup = append(tup, sval{t: e.x.freshConst("noresult", e.x.so.sortOf(rs.At(k).Type()))})
+			}
+			cr = capturedCall{sig: sig}
+			if rs.Len() == 1 {
+				cr.rv = tup[0]
+			} else {
+				cr.rv = sval{tup: tup}
+			}
 		}
 		i := 0
 		if len(n.Args) == 2 {
